@@ -14,7 +14,8 @@ import sys
 class StreamRunner:
     """Drives one schedule object the way every documented driver does:
     finalises an online schedule as soon as a Forward reaches the true step
-    count; stops at StopIteration, or after the requested number of adjoint
+    count (cfg["late"] = k: only after k FURTHER Forward actions have been requested - a driver
+    that learns late that the calculation has ended; permitted by C10); stops at StopIteration, or after the requested number of adjoint
     calculations for classes that permit unlimited ones."""
 
     def __init__(self, cfg, sched=None):
@@ -29,6 +30,8 @@ class StreamRunner:
         self.done = False
         self.stream = []
         self.er = 0
+        self.late = cfg.get("late", 0)
+        self.late_seen = 0
 
     def step(self):
         """Advance by one action; returns the normalised action or None when done."""
@@ -47,7 +50,9 @@ class StreamRunner:
             return None
         t = lib.norm(a)
         self.stream.append(t)
-        if t[0] == "F" and not self.finalized and t[2] >= self.n:
+        if t[0] == "F" and not self.finalized and t[1] >= self.n:
+            self.late_seen += 1
+        if t[0] == "F" and not self.finalized and t[2] >= self.n and self.late_seen >= self.late:
             try:
                 lib.quiet(self.sched.finalize, self.n)
             except Exception as e:
